@@ -191,3 +191,37 @@ pub fn movevalue(args: &Args) {
     out.finish();
     println!("{}", json!({"moves": n}));
 }
+
+/// wv perft --corpus file --depth d --out f : the implementation's perft walk, one event per inner node.
+pub fn perft(args: &Args) {
+    quiet_panics();
+    let fens = read_lines(args.get("--corpus").expect("--corpus"));
+    let depth: usize = args.num("--depth", 3);
+    let lo: usize = args.num("--lo", 0);
+    let hi: usize = args.num("--hi", fens.len());
+    let mut out = Out::new(args.get("--out"));
+    let searcher = weechess_engine::searcher::Searcher::new();
+    let mut nodes = 0u64;
+    let mut leaves = 0u64;
+    fn walk(searcher: &weechess_engine::searcher::Searcher, s: &State, r: usize, out: &mut Out, nodes: &mut u64, leaves: &mut u64) -> usize {
+        // children of this node as the perft callback reports them at level 1
+        let mut kids: Vec<(Move, State, usize)> = vec![];
+        let total = searcher.perft(s, r, |ns, mv, level, c| { if level == 1 { kids.push((*mv, ns.clone(), c)); } });
+        if r < 2 { *leaves += total as u64; return total; }
+        *nodes += 1;
+        let mut ch = vec![];
+        for (mv, ns, c) in kids.iter() {
+            let sub = if r - 1 >= 2 { walk(searcher, ns, r - 1, out, nodes, leaves) } else { searcher.perft(ns, r - 1, |_, _, _, _| {}) };
+            ch.push(json!({"mv": mv_json(mv), "next": pos_json(ns), "count": c, "sub": sub}));
+        }
+        out.ev(json!({"ev": "PerftNode", "pos": pos_json(s), "depth": r, "children": ch, "count": total}));
+        total
+    }
+    for f in fens[lo.min(fens.len())..hi.min(fens.len())].iter() {
+        let s = state_of_fen(f);
+        let total = walk(&searcher, &s, depth, &mut out, &mut nodes, &mut leaves);
+        leaves += if depth >= 2 { total as u64 } else { 0 };
+    }
+    out.finish();
+    println!("{}", json!({"inner_nodes": nodes, "leaves": leaves}));
+}
